@@ -25,7 +25,7 @@ ASSUMPTIONS = [
     "a message is expired at t >= accept + lifetime (the property text: 'never at or after its lifetime has elapsed')",
     "all instants are dyadic rationals, so 'exactly at expiry' is an exact float comparison",
 ]
-PROBES = ["c16.expired_during_slow_flush", "c16.overflow", "c16.expiry_made_room", "c16.send_at_exact_expiry", "c16.not_open", "c16.expired_never_sent", "c16.connect_at_exact_expiry"]
+PROBES = ["c16.add_at_connect_notification", "c16.expired_during_slow_flush", "c16.overflow", "c16.expiry_made_room", "c16.send_at_exact_expiry", "c16.not_open", "c16.expired_never_sent", "c16.connect_at_exact_expiry"]
 LIFETIMES = [0.25, 0.5, 1.0, 2.0, 5.0, 30.0]
 
 
@@ -65,6 +65,12 @@ def generate(rng, index: int, tier: str) -> dict:
             at += stall + 0.5  # nothing is submitted while the flush is suspended (the model below stays a list model)
         expiries.append(at + life)
         tl.append({"at": at, "op": "user.send", "msg": d, "policy": {"retries": rng.choice([0, 0, 2]), "lifetime": life}})
+    if rng.random() < 0.3:
+        # a connection subscriber submits a message from inside its connected=True callback (as the API classes do): the
+        # socket is "connected" already, the held messages have not been flushed yet - expired ones still go first
+        extra = sendq.distinct_messages(rng, gen, n + 1)[-1]
+        if all(x.get("msg") != extra for x in tl):
+            tl.append({"at": t_open, "op": "user.send_on_connect", "msg": extra, "policy": rng.choice(["connected", "idem"])})
     t_end = T_c + stall + 2.0
     if rng.random() < 0.3:
         t_close = T_c + stall + 1.0
@@ -86,6 +92,8 @@ def execute(sc: dict) -> dict:
     t_open = next((c["t_call"] for c in w.calls if c["op"] == "user.open"), None)
     t_close = next((c["t_ret"] for c in w.calls if c["op"] == "user.close"), None)
     T_c = ivs[0][0] if ivs else None
+    # in the instant of the connection: a send ordered before the connection result is still a send on a down link
+    seq_conn = next((e[0] for e in w.trace.events if e[2] == "net.connect_result" and e[3].get("ok")), None)
     pending = []  # (sub, expiry)
     expect_tx = []
     hit_capacity = made_room = False
@@ -104,7 +112,14 @@ def execute(sc: dict) -> dict:
             if s["tx"]:
                 V.append(viol("C16.sent_though_not_open", {"sub": s["id"]}))
             continue
-        if T_c is not None and t >= T_c:
+        on_connect = False
+        if T_c is not None and t == T_c:
+            c0 = next((c for c in w.calls if c["id"] == s["id"]), None)
+            on_connect = bool(c0 and c0["step"].get("on_connect"))
+        if on_connect:
+            probes["c16.add_at_connect_notification"] = 1
+        before_conn = T_c is not None and t == T_c and seq_conn is not None and s["seq_call"] is not None and s["seq_call"] < seq_conn
+        if T_c is not None and t >= T_c and not on_connect and not before_conn:
             # connected: the buffer is not in play; message goes out (C01's concern)
             if t == T_c:
                 continue
@@ -146,7 +161,9 @@ def execute(sc: dict) -> dict:
                     probes["c16.expired_during_slow_flush"] = 1
         want = [s["id"] for s in expect_tx]
         # frames of buffered messages actually seen on the wire, in wire order
-        buffered_ids = {s["id"] for s in h.subs if s["t_accept"] is not None and s["t_accept"] < T_c}
+        oc_ids = {c["id"] for c in w.calls if c["step"].get("on_connect")}
+        buffered_ids = {s["id"] for s in h.subs if s["t_accept"] is not None and (s["t_accept"] < T_c or (s["t_accept"] == T_c and (
+            s["id"] in oc_ids or (seq_conn is not None and s["seq_call"] is not None and s["seq_call"] < seq_conn))))}
         got = [f["sub"] for f in h.frames if f.get("sub") in buffered_ids]
         if got != want:
             missing = [i for i in want if i not in got]
